@@ -24,13 +24,13 @@ theorem fixOne_relative {ss : List Stmt} {i : Nat} {s : Stmt} {b : Nat}
     (hk : s.operand.kind = .relative) (hb : s.pkg.additional.int? = some b) :
     fixOne ss i s =
       if b ≤ i then
-        (if s.row.isShortBranch = true ∧ 1 + sumSize ss b (i + 1) > 129 then .diag
+        (if (s.row.isShortBranch = true ∧ 1 + sumSize ss b (i + 1) > 129) ∨ 1 + sumSize ss b (i + 1) > 0x10000 then .diag
          else match numericOfInt ((if s.row.isShortBranch = true then (0x101 : Int) else 0x10001) - (1 + sumSize ss b (i + 1) : Nat))
                  (some (if s.row.isShortBranch = true then 2 else 4)) .none with
            | .ok v => .ok { s with pkg := { s.pkg with additional := v } }
            | .error _ => .internal)
       else
-        (if s.row.isShortBranch = true ∧ sumSize ss (i + 1) b > 127 then .diag
+        (if (s.row.isShortBranch = true ∧ sumSize ss (i + 1) b > 127) ∨ sumSize ss (i + 1) b > 0xFFFF then .diag
          else match numericOfInt (sumSize ss (i + 1) b : Nat) (some (if s.row.isShortBranch = true then 2 else 4)) .none with
            | .ok v => .ok { s with pkg := { s.pkg with additional := v } }
            | .error _ => .internal) := by
@@ -48,26 +48,63 @@ variable {ss : List Stmt} {i : Nat} {s : Stmt} {b : Nat}
   (hk : s.operand.kind = .relative) (hb : s.pkg.additional.int? = some b)
 include hk hb
 
-/-- out of range is reported exactly for short branches -/
+/-- out of range is reported for short branches that do not fit a byte and (after fix 145359a) for any branch
+whose distance does not fit the 16-bit field -/
 theorem fixOne_relative_diag_iff :
     fixOne ss i s = .diag ↔
-      s.row.isShortBranch = true ∧ (if b ≤ i then sumSize ss b (i + 1) > 128 else sumSize ss (i + 1) b > 127) := by
+      (s.row.isShortBranch = true ∧ (if b ≤ i then sumSize ss b (i + 1) > 128 else sumSize ss (i + 1) b > 127)) ∨
+      (if b ≤ i then sumSize ss b (i + 1) > 65535 else sumSize ss (i + 1) b > 65535) := by
   rw [fixOne_relative hk hb]
   by_cases hbi : b ≤ i
   · simp only [hbi, if_true]
-    by_cases hc : s.row.isShortBranch = true ∧ 1 + sumSize ss b (i + 1) > 129
-    · rw [if_pos hc]; simp; exact ⟨hc.1, by omega⟩
+    by_cases hc : (s.row.isShortBranch = true ∧ 1 + sumSize ss b (i + 1) > 129) ∨ 1 + sumSize ss b (i + 1) > 0x10000
+    · rw [if_pos hc]; simp only [true_iff]
+      rcases hc with hc | hc
+      · exact Or.inl ⟨hc.1, by omega⟩
+      · exact Or.inr (by omega)
     · rw [if_neg hc]
       constructor
       · intro h; split at h <;> cases h
-      · intro h; exact absurd ⟨h.1, by omega⟩ hc
+      · intro h; exfalso; apply hc
+        rcases h with h | h
+        · exact Or.inl ⟨h.1, by omega⟩
+        · exact Or.inr (by omega)
   · simp only [hbi, if_false]
-    by_cases hc : s.row.isShortBranch = true ∧ sumSize ss (i + 1) b > 127
-    · rw [if_pos hc]; simp; exact hc
+    by_cases hc : (s.row.isShortBranch = true ∧ sumSize ss (i + 1) b > 127) ∨ sumSize ss (i + 1) b > 0xFFFF
+    · rw [if_pos hc]; simp only [true_iff]; exact hc
     · rw [if_neg hc]
       constructor
       · intro h; split at h <;> cases h
       · intro h; exact absurd h hc
+
+/-- (after fix 145359a) `fix_addresses` on a relative statement whose `additional` has an `int` never ends in
+an internal error, provided a long branch statement itself has a size (the sum over `b..i` is not 0;
+otherwise a long backward branch would compute the offset 65536) -/
+theorem fixOne_relative_ne_internal (hpos : s.row.isShortBranch = false → b ≤ i → 1 ≤ sumSize ss b (i + 1)) :
+    fixOne ss i s ≠ .internal := by
+  rw [fixOne_relative hk hb]
+  by_cases hbi : b ≤ i
+  · simp only [hbi, if_true]
+    split
+    · simp
+    · rename_i hc
+      have hle : 1 + sumSize ss b (i + 1) ≤ 0x10000 := by omega
+      have hpos := fun h => hpos h hbi
+      generalize sumSize ss b (i + 1) = n at hle hc hpos
+      have : ¬ ((if s.row.isShortBranch = true then (0x101 : Int) else 0x10001) - ((1 + n : Nat) : Int) > 65535) := by
+        cases hsb : s.row.isShortBranch
+        · have := hpos hsb; simp; omega
+        · simp; omega
+      unfold numericOfInt
+      simp only [this, if_false]
+      simp
+  · simp only [hbi, if_false]
+    split
+    · simp
+    · rename_i hc
+      have hle : sumSize ss (i + 1) b ≤ 0xFFFF := by omega
+      rw [numericOfInt_nat (by omega)]
+      simp
 
 theorem fixOne_short_backward (hs : s.row.isShortBranch = true) (hbi : b ≤ i)
     (h1 : 1 ≤ sumSize ss b (i + 1)) (h2 : sumSize ss b (i + 1) ≤ 128) :
@@ -76,7 +113,7 @@ theorem fixOne_short_backward (hs : s.row.isShortBranch = true) (hbi : b ≤ i)
       sext (256 - sumSize ss b (i + 1)) 8 = -(sumSize ss b (i + 1) : Int) := by
   rw [fixOne_relative hk hb]
   generalize sumSize ss b (i + 1) = n at h1 h2
-  have hc : ¬ (s.row.isShortBranch = true ∧ 1 + n > 129) := by omega
+  have hc : ¬ ((s.row.isShortBranch = true ∧ 1 + n > 129) ∨ 1 + n > 0x10000) := by omega
   simp only [hbi, if_true]
   rw [if_neg hc]
   simp only [hs, if_true]
@@ -97,7 +134,7 @@ theorem fixOne_short_forward (hs : s.row.isShortBranch = true) (hbi : ¬ b ≤ i
       sext (sumSize ss (i + 1) b) 8 = (sumSize ss (i + 1) b : Int) := by
   rw [fixOne_relative hk hb]
   generalize sumSize ss (i + 1) b = n at h2
-  have hc : ¬ (s.row.isShortBranch = true ∧ n > 127) := by omega
+  have hc : ¬ ((s.row.isShortBranch = true ∧ n > 127) ∨ n > 0xFFFF) := by omega
   simp only [hbi, if_false]
   rw [if_neg hc]
   simp only [hs, if_true]
@@ -110,13 +147,14 @@ theorem fixOne_short_forward (hs : s.row.isShortBranch = true) (hbi : ¬ b ≤ i
   simp only [this, if_false]
 
 theorem fixOne_long_backward (hs : s.row.isShortBranch = false) (hbi : b ≤ i)
-    (h1 : 1 ≤ sumSize ss b (i + 1)) (h2 : sumSize ss b (i + 1) ≤ 65536) :
+    (h1 : 1 ≤ sumSize ss b (i + 1)) (h2 : sumSize ss b (i + 1) ≤ 65535) :
     fixOne ss i s = .ok (withAdditional s (branchValue false (65536 - sumSize ss b (i + 1)))) ∧
       65536 - sumSize ss b (i + 1) < 65536 ∧
       sext (65536 - sumSize ss b (i + 1)) 16 % 65536 = (-(sumSize ss b (i + 1) : Int)) % 65536 := by
   rw [fixOne_relative hk hb]
   generalize sumSize ss b (i + 1) = n at h1 h2
-  simp only [hbi, if_true, hs, Bool.false_eq_true, false_and, if_false]
+  have hc : ¬ (1 + n > 0x10000) := by omega
+  simp only [hbi, if_true, hs, Bool.false_eq_true, false_and, if_false, false_or, hc]
   have he : ((0x10001 : Int) - ((1 + n : Nat) : Int)) = ((65536 - n : Nat) : Int) := by omega
   rw [he, numericOfInt_nat (by omega)]
   refine ⟨rfl, by omega, ?_⟩
@@ -132,7 +170,8 @@ theorem fixOne_long_forward (hs : s.row.isShortBranch = false) (hbi : ¬ b ≤ i
       sext (sumSize ss (i + 1) b) 16 % 65536 = (sumSize ss (i + 1) b : Int) % 65536 := by
   rw [fixOne_relative hk hb]
   generalize sumSize ss (i + 1) b = n at h2
-  simp only [hbi, if_false, hs, Bool.false_eq_true, false_and]
+  have hc : ¬ (n > 0xFFFF) := by omega
+  simp only [hbi, if_false, hs, Bool.false_eq_true, false_and, false_or, hc]
   rw [numericOfInt_nat (by omega)]
   refine ⟨rfl, ?_⟩
   unfold sext
